@@ -267,3 +267,7 @@ mod tests {
         assert!(Decision::AllowWithConstraints.is_permitted());
     }
 }
+
+#[cfg(kani)]
+#[path = "/verif/harness/anda_cognitive_nexus/governance_mod.rs"]
+mod verif_kani;
